@@ -438,21 +438,25 @@ impl AddAssign<Duration> for Epoch {
 /// Equality only checks the duration since J1900 match in TAI, because this is how all of the epochs are referenced.
 impl PartialEq for Epoch {
     fn eq(&self, other: &Self) -> bool {
+        // Two epochs are equal when they are the same instant. Duration's `==` also equates a
+        // duration with its opposite around zero, which would make epochs on either side of a
+        // reference epoch equal: compare the elapsed times with their total order instead.
+        let same = |a: Duration, b: Duration| a.cmp(&b) == Ordering::Equal;
         if self.time_scale == other.time_scale {
-            self.duration == other.duration
+            same(self.duration, other.duration)
         } else {
             // If one of the two time scales does not include leap seconds,
             // we always convert the time scale with leap seconds into the
             // time scale that does NOT have leap seconds.
             if self.time_scale.uses_leap_seconds() != other.time_scale.uses_leap_seconds() {
                 if self.time_scale.uses_leap_seconds() {
-                    self.to_time_scale(other.time_scale).duration == other.duration
+                    same(self.to_time_scale(other.time_scale).duration, other.duration)
                 } else {
-                    self.duration == other.to_time_scale(self.time_scale).duration
+                    same(self.duration, other.to_time_scale(self.time_scale).duration)
                 }
             } else {
                 // Otherwise it does not matter
-                self.duration == other.to_time_scale(self.time_scale).duration
+                same(self.duration, other.to_time_scale(self.time_scale).duration)
             }
         }
     }
